@@ -703,7 +703,11 @@ class Tensor:
 
         # non-differentiable ufuncs get called on numpy arrays stored by tensors
         if ufunc in _REGISTERED_BOOL_ONLY_UFUNC:
-            caster = asarray
+            # only unwrap tensors: python scalars must reach the ufunc as such
+            # so that numpy applies its own (weak) promotion rules to them
+            def caster(t):
+                return t.data if isinstance(t, Tensor) else t
+
         elif ufunc in _REGISTERED_CONST_ONLY_UFUNC:
             # the presence of non-constant tensors will raise
             caster = _as_constant_array
@@ -2394,22 +2398,34 @@ class Tensor:
         return self._op(Tensor_Transpose_Property, self)
 
     def __eq__(self, other: ArrayLike) -> np.ndarray:
-        return np.ndarray.__eq__(self.data, asarray(other))
+        return np.ndarray.__eq__(
+            self.data, other.data if isinstance(other, Tensor) else other
+        )
 
     def __ne__(self, other: ArrayLike) -> np.ndarray:
-        return np.ndarray.__ne__(self.data, asarray(other))
+        return np.ndarray.__ne__(
+            self.data, other.data if isinstance(other, Tensor) else other
+        )
 
     def __lt__(self, other: ArrayLike) -> np.ndarray:
-        return np.ndarray.__lt__(self.data, asarray(other))
+        return np.ndarray.__lt__(
+            self.data, other.data if isinstance(other, Tensor) else other
+        )
 
     def __le__(self, other: ArrayLike) -> np.ndarray:
-        return np.ndarray.__le__(self.data, asarray(other))
+        return np.ndarray.__le__(
+            self.data, other.data if isinstance(other, Tensor) else other
+        )
 
     def __gt__(self, other: ArrayLike) -> np.ndarray:
-        return np.ndarray.__gt__(self.data, asarray(other))
+        return np.ndarray.__gt__(
+            self.data, other.data if isinstance(other, Tensor) else other
+        )
 
     def __ge__(self, other: ArrayLike) -> np.ndarray:
-        return np.ndarray.__ge__(self.data, asarray(other))
+        return np.ndarray.__ge__(
+            self.data, other.data if isinstance(other, Tensor) else other
+        )
 
     def __imatmul__(self, other):  # pragma: no cover
         raise TypeError(
